@@ -130,6 +130,7 @@ pub fn size(max: u32) -> BoxedStrategy<u32> {
         3 => 0u32..=5000.min(max),
         2 => proptest::sample::select(sp),
         1 => 0u32..=max,
+        1 => max / 2..=max,
     ]
     .boxed()
 }
@@ -150,5 +151,5 @@ pub fn seg(max: u32) -> BoxedStrategy<Seg> {
 }
 
 pub fn recipe(max_seg: u32, max_segs: usize) -> BoxedStrategy<Recipe> {
-    (proptest::collection::vec(seg(max_seg), 0..=max_segs), proptest::bool::weighted(0.12)).prop_map(|(segs, twice)| Recipe { segs, twice }).boxed()
+    (prop_oneof![1 => Just(vec![]), 30 => proptest::collection::vec(seg(max_seg), 1..=max_segs.max(1))], proptest::bool::weighted(0.12)).prop_map(|(segs, twice)| Recipe { segs, twice }).boxed()
 }
